@@ -159,6 +159,16 @@ class ChainBuild(Suite):
             dict(classes=[dict(K(0, 'Xa', group='x'), name='a'),
                           dict(K(2, 'Dep', param_inputs=[dict(ref={'name': 'b'}, default=[99])]), name='dep')],
                  files={}, base={'name': 'm', 'data': {'tasks': ['@M.*']}}, context=None),
+            # a dependant that lists a more nested and a less nested reference, in both orders: `a` is the task a
+            dict(classes=[dict(K(0, 'Ga', group='g'), name='a'), dict(K(1, 'Pa'), name='a'),
+                          dict(K(2, 'Dep', meta_inputs=[{'name': 'g:a'}, {'name': 'a'}]), name='dep')],
+                 files={}, base={'name': 'm', 'data': {'tasks': ['@M.*']}}, context=None),
+            dict(classes=[dict(K(0, 'Ga', group='g'), name='a'), dict(K(1, 'Pa'), name='a'),
+                          dict(K(2, 'Dep', meta_inputs=[{'name': 'a'}, {'name': 'g:a'}]), name='dep')],
+                 files={}, base={'name': 'm', 'data': {'tasks': ['@M.*']}}, context=None),
+            dict(classes=[dict(K(0, 'Ga', group='g'), name='a'), dict(K(1, 'Pa'), name='a'),
+                          dict(K(2, 'Dep', meta_inputs=[{'name': 'g:a'}, {'name': 'a'}]), name='dep')],
+                 files={'p.json': {'tasks': ['@M.*']}}, base={'name': 'm', 'data': {'uses': 'p.json as n'}}, context=None),
             # an import string names exactly one class, also when another class of the module has that name as a prefix
             dict(classes=[K(0, 'Ab'), K(1, 'A'), K(2, 'Abc')], files={}, base={'name': 'm', 'data': {'tasks': ['@M.A']}}, context=None),
             dict(classes=[K(0, 'Ab'), K(1, 'A'), K(2, 'Abc')], files={},
